@@ -21,6 +21,8 @@ mod c03_arith;
 mod c03_special;
 #[cfg(kani)]
 mod c16_split;
+#[cfg(kani)]
+mod c04_neighbours;
 
 #[cfg(kani)]
 mod playback_slot;
